@@ -242,7 +242,22 @@ fn print_case(sc: &Scenario, rec: &RunRecord, pubkey: &[u8]) {
     let rsa = g_list(&rec.rsa.iter().map(|(c, p)| format!("({}, {})", g_hex(c), g_opt(p.as_ref().map(|x| g_hex(x))))).collect::<Vec<_>>());
     // cookie payloads the client sent (login phase frames with id 4)
     let mut psess = vec![]; let mut pauth = vec![];
-    for (_, f) in rec.inbox.iter() {
+    // the frames the client sent: as scripted, or - when raw segments were delivered - reassembled from the bytes
+    let mut client_frames: Vec<Option<(i32, Vec<u8>)>> = rec.inbox.iter().map(|(_, f)| f.clone()).collect();
+    if !rec.framed {
+        client_frames.clear();
+        let all: Vec<u8> = rec.raw_in.iter().flat_map(|(_, b)| b.iter().copied()).collect();
+        let mut o = 0usize;
+        while o < all.len() {
+            let Some((len, n1)) = get_varint(&all[o..]) else { break };
+            if len <= 0 || o + n1 + len as usize > all.len() { break; }
+            let inner = &all[o + n1..o + n1 + len as usize];
+            let Some((id, n2)) = get_varint(inner) else { break };
+            client_frames.push(Some((id, inner[n2..].to_vec())));
+            o += n1 + len as usize;
+        }
+    }
+    for f in client_frames.iter() {
         if let Some((4, body)) = f {
             if let Some(Some(p)) = parse_cookie_resp(body) {
                 psess.push(format!("({}, {})", g_hex(&p), jres_session(&p)));
@@ -749,7 +764,13 @@ fn main() {
                 // C08: the same scenario unsegmented and with every frame cut into pieces
                 for i in 0..(14 * scale) {
                     let intent = *r.pick(&[Intent::Status, Intent::Login, Intent::Transfer]);
-                    let p = base_params(&mut r, intent);
+                    let mut p = base_params(&mut r, intent);
+                    // every second session carries one frame that is larger than everything after it (a valid session cookie
+                    // with a host name of 300-900 bytes): a receive buffer that keeps its capacity is then larger than the next frames
+                    if i % 2 == 0 {
+                        let n = 300 + r.below(600) as usize;
+                        p.session_payload = Some(serde_json::to_vec(&SessionCookie { id: Uuid::from_u128(r.next() as u128), server_address: "h".repeat(n), server_port: 25565, trace_id: None }).unwrap());
+                    }
                     let mut ads = base_ads(&mut r);
                     if let Ok(d) = &mut ads.discover.0 { if d.is_empty() { d.push(rnd_target(&mut r, 0)); } }
                     let secret = Some(r.bytes(16));
